@@ -201,6 +201,7 @@ def _run_lines(binary, args, lines, timeout):
     and the cases after it are re-run in a fresh process."""
     res = []
     rest = list(lines)
+    hangs = 0
     while rest:
         out, died = _run_lines_once(binary, args, rest, timeout)
         res.extend(out)
@@ -208,6 +209,14 @@ def _run_lines(binary, args, lines, timeout):
             break
         res.append(died)
         rest = rest[len(out) + 1:]
+        if died == "TIMEOUT":
+            # a hang is already a reportable outcome: the cases after it get a tenth of the time, and after three
+            # hangs in one chunk the remaining cases are not run (a check must end; NOT-RUN is never compared as equal)
+            hangs += 1
+            if hangs == 1:
+                timeout = max(30, timeout // 10)
+            if hangs >= 3:
+                break
     return res[:len(lines)] + ["NOT-RUN"] * max(0, len(lines) - len(res))
 
 
